@@ -168,7 +168,7 @@ impl Abs<'_> {
     pub fn cqc_x(&self, q: &CommitQC) -> Value {
         use zksync_consensus_crypto::ByteFmt;
         json!({"vote": self.vote(&q.message), "g": self.g(&q.message.view), "signers": Self::signers(&q.signers),
-               "len": q.signers.len(), "sig": !self.l.forged_agg.contains(&ByteFmt::encode(&q.signature))})
+               "len": q.signers.len(), "sig": !self.l.forged_agg.contains(&agg_key(&q.signers, &ByteFmt::encode(&q.signature)))})
     }
     pub fn ocqc_x(&self, q: &Option<CommitQC>) -> Value {
         q.as_ref().map(|q| self.cqc_x(q)).unwrap_or_else(Self::nocqc)
@@ -918,4 +918,12 @@ pub fn commits_in(pool: &[SMsg]) -> Vec<Signed<ReplicaCommit>> {
 }
 pub fn timeouts_in(pool: &[SMsg]) -> Vec<Signed<ReplicaTimeout>> {
     pool.iter().filter_map(|m| m.clone().cast::<ReplicaTimeout>().ok()).collect()
+}
+
+/// Key of a forged certificate: the aggregate bytes TOGETHER WITH the claimed signer set (the same aggregate under the set that
+/// really signed is a valid certificate and must not be called forged).
+pub fn agg_key(signers: &validator::v2::Signers, sig: &[u8]) -> Vec<u8> {
+    let mut k: Vec<u8> = (0..signers.len()).map(|i| signers.0[i] as u8).collect();
+    k.extend_from_slice(sig);
+    k
 }
